@@ -255,6 +255,79 @@ let run_c18 toks =
         let r = Printf.sprintf "exp%d %s" !ne (describe_model_bytes kb) in incr ne; Some r
       | _ -> None) ops
 
+(* ------------------------------------------------------------------------- xorbs *)
+let key_of (l : n list) = str_of_bytes l
+let scheme_of = function "none" -> Some N0 | "lz4" -> Some (n_of_int 1) | "bg4" -> Some (n_of_int 2) | "auto" -> None | _ -> failwith "scheme"
+let cat_of = function ROk _ -> "accept" | RReject -> "reject" | RErr -> "error" | RPanic -> "PANIC"
+
+let lz4_tables chunks aux =
+  let fwd = Hashtbl.create 16 and bwd = Hashtbl.create 16 and ch = Hashtbl.create 16 in
+  let parts = if aux = "" then [] else String.split_on_char ',' aux in
+  List.iter2 (fun c a -> match String.split_on_char ':' a with
+      | [choice; l; bl] ->
+        let l = bytes_of_hex l and bl = bytes_of_hex bl in
+        let sp = bg4_split c in
+        Hashtbl.replace fwd (key_of c) l; Hashtbl.replace bwd (key_of l) c;
+        Hashtbl.replace fwd (key_of sp) bl; Hashtbl.replace bwd (key_of bl) sp;
+        Hashtbl.replace ch (key_of c) (n_of_int (int_of_string choice))
+      | _ -> failwith "bad aux") chunks parts;
+  ((fun x -> match Hashtbl.find_opt fwd (key_of x) with Some y -> y | None -> failwith "lz4 table: unknown plaintext (model's bg4 split differs?)"),
+   (fun y -> Hashtbl.find_opt bwd (key_of y)),
+   (fun c -> match Hashtbl.find_opt ch (key_of c) with Some s -> s | None -> failwith "choice table"))
+
+let split_aux toks =
+  let rec go acc = function
+    | "##" :: rest -> (List.rev acc, rest)
+    | t :: rest -> go (t :: acc) rest
+    | [] -> (List.rev acc, []) in
+  go [] toks
+
+let run_c07 toks =
+  let (toks, aux) = split_aux toks in
+  match toks with
+  | sch :: chs :: rest ->
+    let chunks = List.map bytes_of_hex (String.split_on_char ',' chs) in
+    let (lz4c, lz4d, choose) = lz4_tables chunks (match aux with a :: _ -> a | [] -> "") in
+    let hashes = List.map compute_data_hash chunks in
+    let nodes = List.map2 (fun h c -> (h, n_of_int (List.length c))) hashes chunks in
+    let cashash = (match cas_node_hash compute_internal_node_hash nodes with Some h -> h | None -> failwith "fuel") in
+    let bytes = xorb_serialize lz4c choose cashash chunks hashes (scheme_of sch) in
+    (match xorb_deserialize bytes with
+     | ROk (info, il) ->
+       let l1 = Printf.sprintf "ser %s il=%s" (let b = arr_of_bytes bytes in cksum b 0 (Array.length b)) (dec_n il) in
+       let ranges = (match rest with r :: _ when r <> "" -> String.split_on_char ',' r | _ -> []) in
+       let robs = List.map (fun r -> match String.split_on_char '-' r with
+           | [a; b] ->
+             (match get_bytes_by_chunk_range lz4d info bytes (n_of_string a) (n_of_string b) with
+              | ROk d -> Printf.sprintf "%s-%s:%s" a b (let x = arr_of_bytes d in cksum x 0 (Array.length x))
+              | RPanic -> Printf.sprintf "%s-%s:PANIC" a b
+              | _ -> Printf.sprintf "%s-%s:err" a b)
+           | _ -> failwith "range") ranges in
+       [l1; "ranges " ^ String.concat " " robs]
+     | r -> ["MODEL-CANNOT-DESERIALIZE-OWN-XORB " ^ cat_of r])
+  | _ -> failwith "bad c07 case"
+
+let run_bg4 toks =
+  match toks with
+  | d :: _ -> let d = bytes_of_hex d in
+    let s = bg4_split d in
+    if bg4_regroup s <> d then ["MODEL-REGROUP-MISMATCH"] else ["split " ^ hex_of_bytes s]
+  | _ -> failwith "bad bg4 case"
+
+let run_c08 toks =
+  let (_, aux) = split_aux toks in
+  match aux with
+  | [b; h] ->
+    let bytes = bytes_of_hex b and h = bytes_of_hex h in
+    let nolz4c = (fun _ -> failwith "no lz4 in this stream") and nolz4d = (fun _ -> None) in
+    ignore nolz4c;
+    let c1 = cat_of (validate_cas_object nolz4d bytes h) in
+    let c2 = cat_of (validate_stream nolz4d bytes h) in
+    let c3 = cat_of (parse_boundaries_only boundaries_only_checked bytes) in
+    let c4 = cat_of (xorb_deserialize bytes) in
+    [Printf.sprintf "seek=%s stream=%s bnd=%s footer=%s" c1 c2 c3 c4]
+  | _ -> failwith "bad c08 aux"
+
 let run_c04 toks =
   match toks with
   | target :: rest ->
@@ -287,6 +360,9 @@ let () =
              | "c05" -> run_c05 toks
              | "c10" -> run_c10 toks
              | "c18" -> run_c18 toks
+             | "c07" -> run_c07 toks
+             | "bg4" -> run_bg4 toks
+             | "c08" -> run_c08 toks
              | _ -> failwith "unknown stream")
              with Stack_overflow -> ["MODEL-EXCEPTION stack-overflow"] | e -> ["MODEL-EXCEPTION " ^ Printexc.to_string e] in
            List.iter (fun o -> Printf.printf "obs %s %s\n" id o) obs
